@@ -120,6 +120,9 @@ type tcase struct {
 	// library's default negotiator; layered: over a plain io.ReadWriter a
 	// negotiation step installed on top of the transport
 	negotiated string
+	// the session speaks the content namespace of external components
+	// (jabber:component:accept), as the sessions of the component package do
+	component bool
 	layered    bool
 	reqs       []*request
 	ord        []int // order in which the peer deals with the requests
@@ -142,6 +145,8 @@ func genCase(t *rapid.T) tcase {
 		tc.negotiated = "received"
 	case 2:
 		tc.layered = true
+	case 3:
+		tc.component, tc.s2s = true, false
 	}
 	n := rapid.IntRange(1, 6).Draw(t, "nreq")
 	for k := 0; k < n; k++ {
@@ -154,6 +159,11 @@ func genCase(t *rapid.T) tcase {
 		default:
 			r.kind, r.entry = "iq", rapid.SampledFrom(iqEntries).Draw(t, "entry")
 		}
+		if tc.component && r.kind != "iq" {
+			// (the message / presence entry points only accept stanzas of the
+			// client and server namespaces; on a component session requests are IQs)
+			r.kind, r.entry = "iq", rapid.SampledFrom(iqEntries).Draw(t, "entryC")
+		}
 		r.scen = rapid.SampledFrom(scenarios).Draw(t, "scenario")
 		r.reply = "error"
 		if r.kind == "iq" {
@@ -163,7 +173,10 @@ func genCase(t *rapid.T) tcase {
 		r.hold = rapid.IntRange(0, 3).Draw(t, "hold") == 0
 		r.cancelHeld = r.hold && rapid.Bool().Draw(t, "cancelHeld")
 		r.early = rapid.Bool().Draw(t, "early")
-		if rapid.Bool().Draw(t, "nsform") {
+		if rapid.Bool().Draw(t, "nsform") && !tc.component {
+			// (on a component session requests are handed over with unqualified
+			// names: the entry points recognise only the client and server
+			// namespaces in qualified ones)
 			r.nsForm = "ns"
 		}
 		tc.reqs = append(tc.reqs, r)
@@ -171,6 +184,9 @@ func genCase(t *rapid.T) tcase {
 	tc.ord = rapid.Permutation(seq(n)).Draw(t, "order")
 	if rapid.IntRange(0, 2).Draw(t, "tail") == 0 {
 		tc.tailSendFails = rapid.SampledFrom([]string{"iq", "message", "presence"}).Draw(t, "tailKind")
+		if tc.component {
+			tc.tailSendFails = "iq"
+		}
 	}
 	return tc
 }
@@ -185,7 +201,7 @@ func seq(n int) []int {
 
 func (tc tcase) String() string {
 	var sb strings.Builder
-	fmt.Fprintf(&sb, "s2s=%v session=%q layered=%v answer-order=%v then-Close-and-a-failing-%q-request=%v", tc.s2s, tc.negotiated, tc.layered, tc.ord, tc.tailSendFails, tc.tailSendFails != "")
+	fmt.Fprintf(&sb, "component-namespace=%v s2s=%v session=%q layered=%v answer-order=%v then-Close-and-a-failing-%q-request=%v", tc.component, tc.s2s, tc.negotiated, tc.layered, tc.ord, tc.tailSendFails, tc.tailSendFails != "")
 	for _, r := range tc.reqs {
 		fmt.Fprintf(&sb, "\n  req %s: %s scenario=%s reply=%s read=%s hold=%v context-ends-while-held=%v early=%v ns=%q", r.id(), r.entry, r.scen, r.reply, r.read, r.hold, r.cancelHeld, r.early, r.nsForm)
 	}
@@ -365,6 +381,8 @@ type handlerLog struct {
 	mu   sync.Mutex
 	seen map[string]int // serial -> count
 	all  []string
+	// answerPings: see HandleXMPP
+	answerPings bool
 }
 
 func (h *handlerLog) HandleXMPP(t xmlstream.TokenReadEncoder, start *xml.StartElement) error {
@@ -380,6 +398,27 @@ func (h *handlerLog) HandleXMPP(t xmlstream.TokenReadEncoder, start *xml.StartEl
 	}
 	h.all = append(h.all, fmt.Sprintf("%s n=%s", start.Name.Local, n))
 	h.mu.Unlock()
+	if h.answerPings {
+		// component sessions: the library's automatic reply is reserved to the
+		// client and server namespaces, the application answers the harness's
+		// synchronisation pings itself
+		var id, typ string
+		for _, a := range start.Attr {
+			switch a.Name.Local {
+			case "id":
+				id = a.Value
+			case "type":
+				typ = a.Value
+			}
+		}
+		if start.Name.Local == "iq" && typ == "get" && strings.HasPrefix(id, "sentinel") {
+			rs := xml.StartElement{Name: xml.Name{Local: "iq"}, Attr: []xml.Attr{{Name: xml.Name{Local: "type"}, Value: "result"}, {Name: xml.Name{Local: "id"}, Value: id}}}
+			if err := t.EncodeToken(rs); err != nil {
+				return err
+			}
+			return t.EncodeToken(rs.End())
+		}
+	}
 	return nil
 }
 
@@ -400,8 +439,11 @@ func check(t interface {
 	if tc.s2s {
 		opts.State |= xmpp.S2S
 	}
+	if tc.component {
+		opts.ContentNS = "jabber:component:accept"
+	}
 	ns := opts.NS()
-	hl := &handlerLog{seen: map[string]int{}}
+	hl := &handlerLog{seen: map[string]int{}, answerPings: tc.component}
 	sv, err := wire.Serve(opts, hl)
 	if err != nil {
 		t.Fatalf("harness: %v", err)
@@ -899,6 +941,9 @@ func isTimeout(err error) bool {
 func classify(tc tcase) (bool, []string) {
 	var classes []string
 	abnormal, windows := 0, 0
+	if tc.component {
+		classes = append(classes, "session-component-namespace")
+	}
 	if tc.negotiated != "" {
 		classes = append(classes, "session-negotiated-"+tc.negotiated)
 	}
